@@ -15,7 +15,7 @@ func init() {
 		Run: runC07,
 		Decided: "cache, stopped flag and the datastore handle are touched by AddProvider/GetProviders/getProviderSetForKey only with the manager mutex held (R1); every datastore access of those operations is behind `!stopped`, Close performs cancel, wait for the sweeper, then sets stopped under the mutex, and the sweeper closes its done channel by defer (R2); " +
 			"every accepted AddProvider writes through to the datastore with the same key, provider and timestamp it gave the cache (R3); a provider enters a returned set only behind an age test of its own timestamp with the right polarity, on the cached and on the datastore path (R4); " +
-			"the sweep deletes only expired or malformed entries (R5); a provider set never lists a peer twice and GetProviders hands out a copy (R6). Added after the seeded rounds: ages are measured from time.Now() itself (not a shifted clock); no function of the package returns with a mutex it acquired still held (R1).",
+			"the sweep deletes only expired or malformed entries (R5); a provider set never lists a peer twice and GetProviders hands out a copy (R6). Added after the seeded rounds: ages are measured from time.Now() itself (not a shifted clock); no function of the package returns with a mutex it acquired still held (R1). Round 4: a provider set read from disk is returned (and cached) as complete only after the whole result stream was read (R4).",
 		NotDecided: "equivalence with a reference model over histories; durability of the underlying datastore; the documented sweep/re-add race.",
 	})
 }
